@@ -519,7 +519,7 @@ func (e *Engine) dispatch(s *State, f *Frame, fn *ssa.Function, args []Value, bi
 	name := fn.String()
 	if fn.Origin() != nil {
 		// generic instance: use the origin's name for intrinsic matching
-		if o := fn.Origin().String(); strings.HasPrefix(o, "sync/atomic.") || strings.HasPrefix(o, "(*sync/atomic.") {
+		if o := fn.Origin().String(); strings.HasPrefix(o, "sync/atomic.") || strings.HasPrefix(o, "(*sync/atomic.") || o == "slices.Grow" {
 			name = o
 		}
 	}
@@ -930,6 +930,26 @@ func (e *Engine) dispatch(s *State, f *Frame, fn *ssa.Function, args []Value, bi
 			}
 			set(B(same))
 		}
+	case "slices.Grow":
+		// slices.Grow(s, n): guarantees room for n more elements; when the spare capacity is short it allocates
+		// len+n (or more) elements. Recorded as an allocation of that size; the returned slice keeps the modelled
+		// capacity (later appends are modelled as reallocating: allocations over-approximated, contents exact).
+		sl := args[0].(*SliceV)
+		n := e.toInt(args[1].(*Term), fn.Signature.Params().At(1).Type())
+		ok, forks := e.mustHold(s, Le(CI(0), n, true), "slices.Grow: negative count at "+site)
+		if !ok {
+			return forks
+		}
+		esz := sizeOf(fn.Signature.Params().At(0).Type().Underlying().(*types.Slice).Elem())
+		var avail *Term
+		if e.watchBuf != 0 {
+			if wb := s.heap[e.watchBuf]; wb != nil {
+				avail = Sub(wb.B.Len, wb.R)
+			}
+		}
+		s.allocs = append(s.allocs, AllocRec{Size: MulC(Add(sl.Len, n), esz), Avail: avail, Site: site, Guard: Lt(Sub(sl.Cap, sl.Len), n, true)})
+		set(sl)
+		return forks
 	case "(*sync.Pool).Get":
 		// hidden shared state by definition: recorded as a write to the pool object; the object handed out is a
 		// fresh one from New (reuse of an earlier object is not modelled: the path is flagged imprecise)
